@@ -220,6 +220,11 @@ func c01(c *fw.Ctx) {
 				class, mode = "utf8-nohint", qrref.Byte
 				o.text, _, _ = qrPayload(rng, qrref.Byte, maxLen)
 				nUnits = maxLen
+				if rng.Intn(6) == 0 { // text that BEGINS with U+FEFF (a decoder must not take it for a byte order mark)
+					o.text = "\ufeff" + o.text
+					nUnits += 3
+					class = "utf8-nohint-leading-feff"
+				}
 			case 4:
 				class, mode = "kanji", qrref.Kanji
 				n := 1 + maxLen/2
@@ -303,7 +308,7 @@ func c01(c *fw.Ctx) {
 	}
 	c.Floor("matrix_path_ok", 2500)
 	c.Floor("image_path_ok", 2500)
-	for _, cl := range []string{"digits", "alphanumeric", "latin1-all-bytes", "utf8-nohint", "kanji", "boundary-numeric", "boundary-alphanumeric", "boundary-byte", "boundary-kanji"} {
+	for _, cl := range []string{"digits", "alphanumeric", "latin1-all-bytes", "utf8-nohint", "utf8-nohint-leading-feff", "kanji", "boundary-numeric", "boundary-alphanumeric", "boundary-byte", "boundary-kanji"} {
 		c.Floor("class_"+cl, 50)
 	}
 	for v := 1; v <= 40; v++ {
